@@ -153,7 +153,18 @@ pub fn explore(subject: &dyn Subject, dir: &Path, bound: usize, reduce: bool, sh
     let mut stack: Vec<Vec<usize>> = vec![vec![]];
     while let Some(prefix) = stack.pop() {
         let is_root = prefix.is_empty();
-        let ex = run_once(subject, dir, &prefix, reduce)?;
+        let ex = match run_once(subject, dir, &prefix, reduce) {
+            Ok(e) => e,
+            Err(e) if e.starts_with("replay divergence") && !prefix.is_empty() => {
+                // The same choices led to a different set of enabled actions than when this prefix was recorded:
+                // the subject behaves differently under an identical schedule (nothing the scheduler decides).
+                // Not a verdict for round-trip / format properties; recorded as one more distinct outcome, which
+                // is what the determinism property compares. The subtree below this prefix is not explored.
+                st.outcomes.entry("ok|behaviour-differs-under-identical-schedule-prefix".to_string()).or_insert((0, format!("{:?}: {e}", prefix), prefix.clone())).0 += 1;
+                continue;
+            }
+            Err(e) => return Err(e),
+        };
         let count_it = !is_root || shard.0 == 0;
         if count_it {
             st.schedules += 1;
@@ -171,13 +182,42 @@ pub fn explore(subject: &dyn Subject, dir: &Path, bound: usize, reduce: bool, sh
                 let obs = subject.observe(dir, &ex.result);
                 st.outcomes.entry(obs.key.clone()).or_insert((0, sched.clone(), ex.choices.clone())).0 += 1;
                 if let Some((class, detail)) = obs.violation {
-                    // replay twice before reporting: the same schedule must give the same observation
-                    let again = run_once(subject, dir, &ex.choices, reduce)?;
-                    let obs2 = subject.observe(dir, &again.result);
-                    if obs2.key != obs.key || again.choices != ex.choices {
-                        return Err(format!("non-deterministic replay of schedule {:?}: {} vs {}", ex.choices, obs.key, obs2.key));
+                    // replay before reporting: the same schedule must give the same observation. If it does not, the
+                    // subject itself is non-deterministic under an identical schedule; the violation is reported only
+                    // if one of three further replays shows the same class again (otherwise: machinery error).
+                    let mut confirmed = false;
+                    let mut varies = false;
+                    let mut keys = vec![obs.key.clone()];
+                    for attempt in 0..3 {
+                        match run_once(subject, dir, &ex.choices, reduce) {
+                            Ok(again) => {
+                                let obs2 = subject.observe(dir, &again.result);
+                                if obs2.key == obs.key && again.choices == ex.choices {
+                                    confirmed = true;
+                                    break;
+                                }
+                                varies = true;
+                                keys.push(obs2.key.clone());
+                                if obs2.violation.as_ref().map(|v| &v.0) == Some(&class) {
+                                    confirmed = true;
+                                    break;
+                                }
+                            }
+                            Err(e) if e.starts_with("replay divergence") => {
+                                varies = true;
+                                keys.push(format!("divergence: {e}"));
+                            }
+                            Err(e) => return Err(e),
+                        }
+                        let _ = attempt;
                     }
-                    st.violations.viol(&class, || json!({"subject": subject.describe(), "choices": ex.choices, "schedule": sched, "deviations": deviations(&ex.choices), "detail": detail, "reduce": reduce}));
+                    if varies {
+                        st.outcomes.entry("ok|outcome-differs-under-identical-schedule".to_string()).or_insert((0, sched.clone(), ex.choices.clone())).0 += 1;
+                    }
+                    if !confirmed {
+                        return Err(format!("non-deterministic replay of schedule {:?}: {:?}", ex.choices, keys));
+                    }
+                    st.violations.viol(&class, || json!({"subject": subject.describe(), "choices": ex.choices, "schedule": sched, "deviations": deviations(&ex.choices), "detail": detail, "reduce": reduce, "outcome_varies_between_replays_of_this_schedule": varies, "outcomes_seen": keys}));
                 }
             }
         }
